@@ -780,9 +780,39 @@ func checkAcceptedCollection(r *Run, k *kvCtx) {
 		r.Ob("C13.R2.dedup", "filterPersist publishes an accepted request", p.Position(sw.Pos()), false, "no store under fp.acceptedTo")
 		return
 	}
-	// appends to accepted.Operations
-	n := 0
+	// appends to accepted.Operations: in _switch itself, its literals, or a package-local
+	// helper that receives &accepted (the per-operation body extracted into a method)
+	type site struct {
+		fn  *FuncNode
+		acc types.Object
+	}
+	sites := []site{}
 	for _, fn := range append([]*FuncNode{sw}, sw.Lits...) {
+		sites = append(sites, site{fn, accepted})
+		inspectNoLit(fn.Body, func(x ast.Node) bool {
+			call, ok := x.(*ast.CallExpr)
+			if !ok {
+				return true
+			}
+			for i, a := range call.Args {
+				u, ok := ast.Unparen(a).(*ast.UnaryExpr)
+				if !ok || u.Op != token.AND || objOf(fn, u.X) != accepted {
+					continue
+				}
+				if f := CalleeFunc(fn, call); f != nil {
+					if callee, ok := p.ByObj[f]; ok && callee.Body != nil {
+						if po := paramObj(callee, i); po != nil {
+							sites = append(sites, site{callee, po})
+						}
+					}
+				}
+			}
+			return true
+		})
+	}
+	n := 0
+	for _, st := range sites {
+		fn, accepted := st.fn, st.acc
 		c := p.CFG(fn)
 		for _, pt := range c.NodesWhere(func(nd ast.Node) bool {
 			as, ok := nd.(*ast.AssignStmt)
@@ -790,7 +820,7 @@ func checkAcceptedCollection(r *Run, k *kvCtx) {
 				return false
 			}
 			s, ok := ast.Unparen(as.Lhs[0]).(*ast.SelectorExpr)
-			return ok && fieldVar(fn, s) == opsField && fn.Pkg.TypesInfo.Uses[identOf(s.X)] == accepted
+			return ok && fieldVar(fn, s) == opsField && objOf(fn, s.X) == accepted
 		}) {
 			n++
 			for _, target := range []*FuncNode{k.apply, k.digApply} {
